@@ -13,6 +13,7 @@ Everything lives in the namespace `LNN.Mono`.
 -/
 import LnnVerif.Spec.Semantics
 import LnnVerif.Lemmas.ArithOr
+import LnnVerif.Lemmas.Chaotic
 
 set_option linter.unusedSectionVars false
 
@@ -637,6 +638,382 @@ theorem ustep_infl (kb : KB ι α) (st : Step ι) {s : State ι α} (h : UnitSta
   cases st with
   | up i => exact ustepUp_infl kb i h
   | down i idx => exact ustepDown_infl kb i idx h
+
+/-! ### contradictions persist under tightening -/
+
+theorem region_eq_five (a y : α) : region a y = 5 ↔ a ≤ y := by
+  unfold region
+  simp only
+  split_ifs with h5 <;> simp [h5]
+
+theorem region_eq_one (a y : α) : region a y = 1 ↔ y ≤ 1 - a ∧ y < a ∧ y ≠ 1/2 := by
+  unfold region
+  simp only
+  split_ifs with h5 h4 h3 h2 h1
+  · simp; intro _ h; exact absurd h5 (not_le.mpr h)
+  · simp; intro h _ ; exfalso; linarith [h4.1, h4.2]
+  · simp [h3]
+  · simp; intro h; exfalso; linarith [h2.1]
+  · simp only [true_iff]
+    exact ⟨h1, not_le.mp h5, h3⟩
+  · simp; intro h; exact absurd h h1
+
+theorem isContra_iff (a : α) (b : Bounds α) :
+    isContra a b = true ↔
+      b.hi < b.lo ∧ ¬ (region a b.lo = 1 ∧ region a b.hi = 1) ∧ ¬ (a ≤ b.lo ∧ a ≤ b.hi) := by
+  unfold isContra
+  simp only [Bool.and_eq_true, Bool.not_eq_true', Bool.and_eq_false_iff, beq_eq_false_iff_ne,
+    decide_eq_true_eq, gt_iff_lt, ← region_eq_five, ne_eq, and_assoc]
+  tauto
+
+/-- **Contradictions persist under tightening** (for every alpha). -/
+theorem isContra_mono (a : α) {b b' : Bounds α} (h : BLe b b') (hc : isContra a b = true) :
+    isContra a b' = true := by
+  rw [isContra_iff] at hc ⊢
+  obtain ⟨hx, h1, h5⟩ := hc
+  obtain ⟨hlo, hhi⟩ := h
+  refine ⟨by linarith, ?_, ?_⟩
+  · rintro ⟨hl', hh'⟩
+    apply h1
+    rw [region_eq_one] at hl' hh' ⊢
+    rw [region_eq_one]
+    obtain ⟨l1, l2, l3⟩ := hl'
+    refine ⟨⟨by linarith, by linarith, ?_⟩, by linarith, by linarith, ?_⟩
+    · intro e
+      have : 1/2 < b'.lo := lt_of_le_of_ne (by linarith) (Ne.symm l3)
+      linarith
+    · intro e
+      linarith
+  · rintro ⟨_, hh'⟩
+    exact h5 ⟨by linarith, by linarith⟩
+
+theorem isContra_false_of_le (a : α) {b b' : Bounds α} (h : BLe b b')
+    (hc : isContra a b' = false) : isContra a b = false := by
+  cases hb : isContra a b with
+  | false => rfl
+  | true => rw [isContra_mono a h hb] at hc; exact absurd hc (by simp)
+
+/-- bounds that are not crossed are not contradictory -/
+theorem isContra_false_of_le_hi (a : α) {b : Bounds α} (h : b.lo ≤ b.hi) : isContra a b = false := by
+  cases hb : isContra a b with
+  | false => rfl
+  | true => rw [isContra_iff] at hb; exact absurd hb.1 (not_lt.mpr h)
+
+/-- **Arrests persist under tightening.** -/
+theorem arrested_mono (kb : KB ι α) (i : ι) {s t : State ι α} (h : Le s t)
+    (hc : arrested kb s i = true) : arrested kb t i = true := by
+  unfold arrested at hc ⊢
+  simp only [Bool.or_eq_true, List.any_eq_true] at hc ⊢
+  rcases hc with (hc | ⟨j, hj, hc⟩) | ⟨j, hj, hc⟩
+  · exact Or.inl (Or.inl (isContra_mono _ (h i) hc))
+  · exact Or.inl (Or.inr ⟨j, hj, isContra_mono _ (h j) hc⟩)
+  · exact Or.inr ⟨j, hj, isContra_mono _ (h j) hc⟩
+
+theorem arrested_false_of_le (kb : KB ι α) (i : ι) {s t : State ι α} (h : Le s t)
+    (hc : arrested kb t i = false) : arrested kb s i = false := by
+  cases hb : arrested kb s i with
+  | false => rfl
+  | true => rw [arrested_mono kb i h hb] at hc; exact absurd hc (by simp)
+
+/-- a state without crossed bounds arrests nothing -/
+theorem arrested_false_of_uncrossed (kb : KB ι α) (i : ι) {s : State ι α}
+    (h : ∀ j, (s j).lo ≤ (s j).hi) : arrested kb s i = false := by
+  unfold arrested
+  simp only [Bool.or_eq_false_iff, List.any_eq_false]
+  refine ⟨⟨isContra_false_of_le_hi _ (h i), ?_⟩, ?_⟩
+  · intro j _; simp [isContra_false_of_le_hi _ (h j)]
+  · intro j _; simp [isContra_false_of_le_hi _ (h j)]
+
+/-! ### runs -/
+
+/-- the state component of a run is the left fold of the state components of its steps -/
+theorem runSteps_fst (kb : KB ι α) (l : List (Step ι)) (s : State ι α) :
+    (runSteps kb l s).1 = Chaotic.runL (fun st s => (runStep kb st s).1) l s := by
+  induction l generalizing s with
+  | nil => rfl
+  | cons st l ih => simp only [runSteps, Chaotic.runL_cons, ih]
+
+theorem runSteps_append (kb : KB ι α) (l₁ l₂ : List (Step ι)) (s : State ι α) :
+    (runSteps kb (l₁ ++ l₂) s).1 = (runSteps kb l₂ (runSteps kb l₁ s).1).1 := by
+  simp only [runSteps_fst, Chaotic.runL_append]
+
+/-- every run from a unit state ends in a unit state -/
+theorem runSteps_unit (kb : KB ι α) (l : List (Step ι)) {s : State ι α} (h : UnitState s) :
+    UnitState (runSteps kb l s).1 := by
+  rw [runSteps_fst]
+  exact Chaotic.run_inv UnitState (fun _ => True) (ustep kb) _ (runStep_cases kb)
+    (fun st s _ hs => ustep_unit kb st hs) l (fun _ _ => trivial) s h
+
+/-- every run from a unit state only tightens -/
+theorem runSteps_infl (kb : KB ι α) (l : List (Step ι)) {s : State ι α} (h : UnitState s) :
+    Le s (runSteps kb l s).1 := by
+  rw [runSteps_fst]
+  exact Chaotic.le_run Le UnitState (fun _ => True) (ustep kb) _ Le.refl
+    (fun _ _ _ => Le.trans) (runStep_cases kb) (fun st s _ hs => ustep_unit kb st hs)
+    (fun st s _ hs => ustep_infl kb st hs) l (fun _ _ => trivial) s h
+
+/-! ### quiescence: a run that reports `0` changed nothing, step by step -/
+
+theorem aggregate_amount_nonneg (sel : BoundSel) (p n : Bounds α) : 0 ≤ (aggregate sel p n).2 := by
+  unfold aggregate
+  exact add_nonneg (abs_nonneg _) (abs_nonneg _)
+
+theorem aggregate_zero (sel : BoundSel) (p n : Bounds α) (h : (aggregate sel p n).2 = 0) :
+    (aggregate sel p n).1 = p := by
+  unfold aggregate at h ⊢
+  simp only at h ⊢
+  obtain ⟨h1, h2⟩ := (add_eq_zero_iff_of_nonneg (abs_nonneg _) (abs_nonneg _)).mp h
+  rw [abs_eq_zero, sub_eq_zero] at h1 h2
+  cases p
+  simp only [Bounds.mk.injEq]
+  exact ⟨h1, h2⟩
+
+theorem update_aggregate_zero (s : State ι α) (j : ι) (n : Bounds α)
+    (h : (aggregate .both (s j) n).2 = 0) :
+    Function.update s j (aggregate .both (s j) n).1 = s := by
+  rw [aggregate_zero _ _ _ h, Function.update_eq_self]
+
+theorem writeOps_amount_nonneg (es : List (Nat × ι × Bounds α)) (idx : Option Nat)
+    (s : State ι α) : 0 ≤ (writeOps es idx s).2 := by
+  induction es generalizing s with
+  | nil => simp [writeOps]
+  | cons e es ih =>
+    obtain ⟨k, j, p⟩ := e
+    simp only [writeOps]
+    by_cases hc : idx = none ∨ idx = some k
+    · simp only [hc, if_true]
+      exact add_nonneg (aggregate_amount_nonneg _ _ _) (ih _)
+    · simp only [hc, if_false]
+      exact ih s
+
+theorem writeOps_zero (es : List (Nat × ι × Bounds α)) (idx : Option Nat) (s : State ι α)
+    (h : (writeOps es idx s).2 = 0) : (writeOps es idx s).1 = s := by
+  induction es generalizing s with
+  | nil => simp [writeOps]
+  | cons e es ih =>
+    obtain ⟨k, j, p⟩ := e
+    simp only [writeOps] at h ⊢
+    by_cases hc : idx = none ∨ idx = some k
+    · simp only [hc, if_true] at h ⊢
+      obtain ⟨h1, h2⟩ := (add_eq_zero_iff_of_nonneg (aggregate_amount_nonneg _ _ _)
+        (writeOps_amount_nonneg _ _ _)).mp h
+      have hu := update_aggregate_zero s j p h1
+      rw [hu] at h2 ⊢
+      exact ih s h2
+    · simp only [hc, if_false] at h ⊢
+      exact ih s h
+
+theorem stepUp_amount_nonneg (kb : KB ι α) (i : ι) (s : State ι α) : 0 ≤ (stepUp kb i s).2 := by
+  unfold stepUp
+  simp only
+  have conn : 0 ≤ (if arrested kb s i then (s, (0 : α)) else
+      (Function.update s i (aggregate .both (s i) (actUp (kb i) s)).1,
+        (aggregate .both (s i) (actUp (kb i) s)).2)).2 := by
+    split
+    · exact le_rfl
+    · exact aggregate_amount_nonneg _ _ _
+  cases (kb i).kind with
+  | atom => exact le_rfl
+  | neg =>
+    cases (kb i).ops with
+    | nil => exact le_rfl
+    | cons j _ => exact aggregate_amount_nonneg _ _ _
+  | and => exact conn
+  | or => exact conn
+  | implies => exact conn
+
+theorem stepUp_zero (kb : KB ι α) (i : ι) (s : State ι α) (h : (stepUp kb i s).2 = 0) :
+    (stepUp kb i s).1 = s := by
+  unfold stepUp at h ⊢
+  simp only at h ⊢
+  have conn : (if arrested kb s i then (s, (0 : α)) else
+      (Function.update s i (aggregate .both (s i) (actUp (kb i) s)).1,
+        (aggregate .both (s i) (actUp (kb i) s)).2)).2 = 0 →
+      (if arrested kb s i then (s, (0 : α)) else
+      (Function.update s i (aggregate .both (s i) (actUp (kb i) s)).1,
+        (aggregate .both (s i) (actUp (kb i) s)).2)).1 = s := by
+    split
+    · intro _; rfl
+    · intro h; exact update_aggregate_zero s i _ h
+  cases hk : (kb i).kind with
+  | atom => rfl
+  | neg =>
+    rw [hk] at h
+    simp only at h ⊢
+    cases hops : (kb i).ops with
+    | nil => rfl
+    | cons j _ =>
+      rw [hops] at h
+      exact update_aggregate_zero s i _ h
+  | and => rw [hk] at h; exact conn h
+  | or => rw [hk] at h; exact conn h
+  | implies => rw [hk] at h; exact conn h
+
+theorem stepDown_amount_nonneg (kb : KB ι α) (i : ι) (idx : Option Nat) (s : State ι α) :
+    0 ≤ (stepDown kb i idx s).2 := by
+  unfold stepDown
+  simp only
+  have conn : 0 ≤ (if arrested kb s i then (s, (0 : α)) else
+      writeOps (enumFrom 0 (List.zip (kb i).ops (actDown (kb i) (s i) s))) idx s).2 := by
+    split
+    · exact le_rfl
+    · exact writeOps_amount_nonneg _ _ _
+  cases (kb i).kind with
+  | atom => exact le_rfl
+  | neg =>
+    cases (kb i).ops with
+    | nil => exact le_rfl
+    | cons j _ => exact aggregate_amount_nonneg _ _ _
+  | and => exact conn
+  | or => exact conn
+  | implies => exact conn
+
+theorem stepDown_zero (kb : KB ι α) (i : ι) (idx : Option Nat) (s : State ι α)
+    (h : (stepDown kb i idx s).2 = 0) : (stepDown kb i idx s).1 = s := by
+  unfold stepDown at h ⊢
+  simp only at h ⊢
+  have conn : (if arrested kb s i then (s, (0 : α)) else
+      writeOps (enumFrom 0 (List.zip (kb i).ops (actDown (kb i) (s i) s))) idx s).2 = 0 →
+      (if arrested kb s i then (s, (0 : α)) else
+      writeOps (enumFrom 0 (List.zip (kb i).ops (actDown (kb i) (s i) s))) idx s).1 = s := by
+    split
+    · intro _; rfl
+    · intro h; exact writeOps_zero _ _ _ h
+  cases hk : (kb i).kind with
+  | atom => rfl
+  | neg =>
+    rw [hk] at h
+    simp only at h ⊢
+    cases hops : (kb i).ops with
+    | nil => rfl
+    | cons j _ =>
+      rw [hops] at h
+      exact update_aggregate_zero s j _ h
+  | and => rw [hk] at h; exact conn h
+  | or => rw [hk] at h; exact conn h
+  | implies => rw [hk] at h; exact conn h
+
+theorem runStep_amount_nonneg (kb : KB ι α) (st : Step ι) (s : State ι α) :
+    0 ≤ (runStep kb st s).2 := by
+  cases st with
+  | up i => exact stepUp_amount_nonneg kb i s
+  | down i idx => exact stepDown_amount_nonneg kb i idx s
+
+theorem runStep_zero (kb : KB ι α) (st : Step ι) (s : State ι α) (h : (runStep kb st s).2 = 0) :
+    (runStep kb st s).1 = s := by
+  cases st with
+  | up i => exact stepUp_zero kb i s h
+  | down i idx => exact stepDown_zero kb i idx s h
+
+theorem runSteps_amount_nonneg (kb : KB ι α) (l : List (Step ι)) (s : State ι α) :
+    0 ≤ (runSteps kb l s).2 := by
+  induction l generalizing s with
+  | nil => simp [runSteps]
+  | cons st l ih =>
+    simp only [runSteps]
+    exact add_nonneg (runStep_amount_nonneg kb st s) (ih _)
+
+/-- a run that reports `0` left the state alone, and so does every one of its steps -/
+theorem runSteps_zero (kb : KB ι α) (l : List (Step ι)) (s : State ι α)
+    (h : (runSteps kb l s).2 = 0) :
+    (runSteps kb l s).1 = s ∧ ∀ st ∈ l, (runStep kb st s).1 = s := by
+  induction l generalizing s with
+  | nil => simp [runSteps]
+  | cons st l ih =>
+    simp only [runSteps] at h ⊢
+    obtain ⟨h1, h2⟩ := (add_eq_zero_iff_of_nonneg (runStep_amount_nonneg kb st s)
+      (runSteps_amount_nonneg kb l _)).mp h
+    have hs := runStep_zero kb st s h1
+    rw [hs] at h2 ⊢
+    obtain ⟨e, hall⟩ := ih s h2
+    refine ⟨e, ?_⟩
+    intro st' hst'
+    rcases List.mem_cons.mp hst' with rfl | hm
+    · exact hs
+    · exact hall st' hm
+
+/-! ### `infer` as a run -/
+
+/-- the primitive steps of one reasoning step of `infer` -/
+def sweepSteps (kb : KB ι α) (cfg : InferCfg ι α) : List (Step ι) :=
+  passSteps kb cfg.up ++ passSteps kb cfg.down
+
+theorem sweep_fst (kb : KB ι α) (cfg : InferCfg ι α) (s : State ι α) :
+    (sweep kb cfg s).1 = (runSteps kb (sweepSteps kb cfg) s).1 := by
+  unfold sweep sweepSteps runPass
+  rw [runSteps_append]
+
+theorem sweep_amount_zero (kb : KB ι α) (cfg : InferCfg ι α) (s : State ι α)
+    (h : (sweep kb cfg s).2 = 0) :
+    (sweep kb cfg s).1 = s ∧ ∀ st ∈ sweepSteps kb cfg, (runStep kb st s).1 = s := by
+  unfold sweep runPass at h
+  simp only at h
+  obtain ⟨h1, h2⟩ := (add_eq_zero_iff_of_nonneg (runSteps_amount_nonneg kb _ _)
+    (runSteps_amount_nonneg kb _ _)).mp h
+  obtain ⟨e1, a1⟩ := runSteps_zero kb _ _ h1
+  rw [e1] at h2
+  obtain ⟨e2, a2⟩ := runSteps_zero kb _ _ h2
+  constructor
+  · unfold sweep runPass
+    simp only
+    rw [e1, e2]
+  · intro st hst
+    unfold sweepSteps at hst
+    rcases List.mem_append.mp hst with hm | hm
+    · exact a1 st hm
+    · exact a2 st hm
+
+theorem sweep_amount_nonneg (kb : KB ι α) (cfg : InferCfg ι α) (s : State ι α) :
+    0 ≤ (sweep kb cfg s).2 := by
+  unfold sweep runPass
+  exact add_nonneg (runSteps_amount_nonneg kb _ _) (runSteps_amount_nonneg kb _ _)
+
+/-- the final state of `infer` is the end state of a run of whole sweeps -/
+theorem infer_state_eq_run (kb : KB ι α) (cfg : InferCfg ι α) (fuel : Nat) (s : State ι α) :
+    ∃ k, (infer kb cfg fuel s).state
+      = (runSteps kb (List.replicate k (sweepSteps kb cfg)).flatten s).1 := by
+  induction fuel generalizing s with
+  | zero => exact ⟨0, rfl⟩
+  | succ n ih =>
+    unfold infer
+    split
+    · exact ⟨0, rfl⟩
+    · simp only
+      split
+      · refine ⟨1, ?_⟩
+        simp only [List.replicate_one, List.flatten_singleton]
+        exact sweep_fst kb cfg s
+      · obtain ⟨k, hk⟩ := ih (sweep kb cfg s).1
+        refine ⟨k + 1, ?_⟩
+        simp only [List.replicate_succ, List.flatten_cons]
+        rw [runSteps_append, ← sweep_fst, hk]
+
+/-- with threshold `0`, an `infer` run that reports convergence ends in a state that no step of
+the sweep changes -/
+theorem infer_converged_fix (kb : KB ι α) (cfg : InferCfg ι α) (heps : cfg.eps ≤ 0) (fuel : Nat)
+    (s : State ι α) (hc : (infer kb cfg fuel s).converged = true) :
+    ∀ st ∈ sweepSteps kb cfg,
+      (runStep kb st (infer kb cfg fuel s).state).1 = (infer kb cfg fuel s).state := by
+  induction fuel generalizing s with
+  | zero => simp [infer] at hc
+  | succ n ih =>
+    unfold infer at hc ⊢
+    split at hc
+    · simp at hc
+    · rename_i hq
+      simp only [hq]
+      simp only at hc ⊢
+      split at hc
+      · rename_i hle
+        simp only [hle, if_true]
+        have hz : (sweep kb cfg s).2 = 0 :=
+          le_antisymm (le_trans hle heps) (sweep_amount_nonneg kb cfg s)
+        obtain ⟨e, hall⟩ := sweep_amount_zero kb cfg s hz
+        rw [e]
+        exact hall
+      · rename_i hle
+        simp only [hle, if_false]
+        exact ih _ hc
 
 end Mono
 end LNN
